@@ -86,7 +86,7 @@ def envWriteTable : List EnvWrite := [
   ⟨"environment.go", "enter_state", [], .root, .user, false, "enter_state_time_ms", .stamp⟩,
   ⟨"environment.go", "after_event", [.event true "START_ACTIVITY"], .env, .vars, false, "__fmq_cleanup_count", .countInc⟩,
   ⟨"environment.go", "after_event", [.event true "START_ACTIVITY"], .root, .user, false, "run_start_completion_time_ms", .stamp⟩,
-  ⟨"environment.go", "after_event", [.event false "START_ACTIVITY", .event true "STOP_ACTIVITY"], .root, .user, false, "run_end_completion_time_ms", .stamp⟩,
+  ⟨"environment.go", "after_event", [.event false "START_ACTIVITY", .event true "STOP_ACTIVITY", .emptyUser true "run_end_completion_time_ms"], .root, .user, false, "run_end_completion_time_ms", .stamp⟩,
   ⟨"environment.go", "after_event", [.event false "START_ACTIVITY", .event false "STOP_ACTIVITY", .event true "GO_ERROR", .emptyUser true "run_end_completion_time_ms"], .root, .user, false, "run_end_completion_time_ms", .stamp⟩,
   ⟨"environment.go", "after_event", [.event true "STOP_ACTIVITY"], .root, .vars, false, "last_run_number", .currentRun⟩,
   ⟨"environment.go", "after_event", [.event true "STOP_ACTIVITY"], .root, .vars, true, "run_number", .na⟩,
